@@ -435,6 +435,31 @@ def match_finding(c, what):
     return _FINDING_OF_GUARD.get(flags[i])
 
 
-LEVEL_TEXT = "see LEVEL_NOTE"
-LEVEL_NOTE = "see final report"
+LEVEL_TEXT = (
+    "Machine-checked proofs (Coq) over the executable session model of C33 extended with a crash oracle "
+    "inside Session.flush (failure reported by the driver after the k-th INSERT/UPDATE/DELETE ran, for every "
+    "k; exceptions from before_flush / after_flush / after_flush_postexec; real IntegrityError / "
+    "StaleDataError), for EVERY history of guarded C33 operations and faulty flushes (any number of failures, "
+    "also inside savepoints): nothing_committed - neither the failing flush nor the rollback after it changes "
+    "what other connections see, and after Session.rollback() the connection shows exactly the committed "
+    "rows; after_rollback_objects_agree_with_db - the rollback succeeds and leaves every persistent object "
+    "equal to its row, nothing pending/modified/marked deleted; the failing flush keeps the C33 invariant "
+    "(the transaction is untouched or DEACTIVE with its snapshot restored), so the re-run is covered by the "
+    "C33 theorems. Tied to the code by a source pin and by comparison with the implementation after every "
+    "operation with failures injected at every statement position."
+)
+LEVEL_NOTE = (
+    "partial. rerun_equals_failure_free_run is proved only as 'the states after the failing flush and after the "
+    "rollback are states of guarded histories again (same objects and handles, clean, no transaction)'; that the "
+    "re-run writes the same rows as a failure-free run is checked on the implementation against reference runs "
+    "(oracle), not proved. The claim 'objects added in the rolled-back transaction are transient again' is "
+    "REFUTED (finding C32-expunged-object-with-key-switch-left-detached). The histories are the guarded ones of "
+    "C33 (guard clauses g1 g2 g3 g5 g6 = the C33 findings, and no object operation while a failed flush waits "
+    "for rollback). Crash oracle: the driver failure is reported AFTER the statement took effect and positions "
+    "count INSERT/UPDATE/DELETE only; a failure inside a savepoint while later statements of the flush still "
+    "have to SELECT an expired primary key is outside the model (batch parameters are collected first). Not "
+    "covered: failures of ROLLBACK / ROLLBACK TO themselves, disconnects (connection invalidation), failures in "
+    "SELECTs or SAVEPOINT commands, exceptions from mapper-level events (before_insert...), relationships and "
+    "cascades, bulk operations, other databases than SQLite. Trusted: as C33. No axioms."
+)
 TECHNIQUE = "Coq invariant proofs over the executable session model of C33 with a crash oracle; source pin; model/impl correspondence after every operation on SQLite with failures injected at every statement position; direct oracle incl. failure-free reference runs"
